@@ -19,6 +19,7 @@ struct FaultSpec {
     unsigned j = 1;         // j-th write call issued during that op (1-based)
     simfs::WFault::Kind kind = simfs::WFault::EIO_;
     bool persist = false;
+    bool open_fail = false;  // instead of a write fault: the destination of the rotate_output at `op` cannot be opened
 };
 
 const char* kind_name(simfs::WFault::Kind k) {
@@ -38,6 +39,129 @@ struct Pass1 {
 }  // namespace
 
 static void engine_fault_impl(RunCtx& cx);
+
+namespace {
+
+// Fault kind "the destination of rotate_output cannot be opened". Expected of the library: the call throws; the output it was
+// closing is complete (byte-identical to the fault-free pass) and never changes afterwards; whatever the application hands over
+// before it rotates to a usable destination is either kept buffered (the call threw) or its loss is reported by one of the next
+// rotate_output calls; rotation to a usable destination returns normally within two attempts and a following write_block()
+// yields a complete valid file with the buffered records.
+void run_open_fail(RunCtx& cx, const Pass1& p1, unsigned fop) {
+    Pipeline p(cx);
+    p.checks_off = true;
+    simfs::FS& F = simfs::fs();
+    try { p.setup(false); } catch (std::exception&) { return; }
+    cx.tag("fault-open-fails");
+    const bool fd = p.plan.sw.fd_output;
+    std::string feat = std::string("/kind=") + (fd ? "fd" : "name") + (p.plan.sw.compression ? "/compressed" : "/plain");
+    auto V = [&](const std::string& prop, const std::string& cls, const std::string& d) { cx.violation(prop, prop + "/" + cls + feat, d + " [fault: destination of the rotate_output at op " + std::to_string(fop) + " cannot be opened]"); };
+    if (cx.describe) cx.description += " || FAULT the destination of the rotate_output at op #" + std::to_string(fop) + " cannot be opened";
+    size_t closed_seen = 0;
+    for (unsigned i = 0; i < p.plan.ops.size(); i++) {
+        if (!cx.kept(i)) continue;
+        const ppl::POp& op = p.plan.ops[i];
+        if (i != fop) {
+            cx.log.ev(std::string("OP ") + std::to_string(i) + " " + ppl::OPN[op.kind]);
+            try { p.exec(i, op); } catch (std::exception& e) { V("C16", "I16/exception-without-fault", std::string("op ") + std::to_string(i) + " threw before the fault: " + e.what()); p.ex.reset(); F.close_all_leaked(); return; }
+            if (op.kind == ppl::O_ROTATE) closed_seen++;
+            continue;
+        }
+        // ---- the failing rotation -----------------------------------------------------------------------------------------------
+        cx.log.ev("OP " + std::to_string(i) + " rotate_output to an unopenable destination");
+        model::MOutput old = p.M.out;
+        bool threw = false;
+        std::string what;
+        if (!fd) F.fopen_fail_k = F.fopen_w_calls + 1;
+        try {
+            if (fd) p.ex->rotate_output(-1, op.export_);
+            else p.ex->rotate_output(std::string("/sim/unopenable"), op.export_);
+        } catch (std::exception& e) { threw = true; what = e.what(); }
+        F.fopen_fail_k = 0;
+        cx.ctr->add("fault_fired.destination_cannot_be_opened");
+        if (!threw) { V("C16", "I15/unopenable-destination-not-reported", "rotate_output returned normally although the new output could not be opened"); }
+        if (op.export_) p.M.write_block();   // the export step precedes the rotation and met a healthy output
+        auto old_raw = [&]() { return p.read_raw(old); };
+        size_t k = closed_seen;
+        bool have_ref = k < p1.closed_raw.size();
+        auto check_old = [&](const char* when) {
+            if (!have_ref) return;
+            if (fd) { auto ino = F.fd_inode(old.name.substr(3)); if (ino && ino->opens != 0) { V("C13", "I12/output-not-closed-by-failing-rotation", old.name + " is still open " + when); return; } }
+            if (old_raw() != p1.closed_raw[k])
+                V("C13", "I12/output-closed-by-failing-rotation-differs", old.name + " holds " + std::to_string(old_raw().size()) + " bytes " + when + ", the complete output has " + std::to_string(p1.closed_raw[k].size()));
+        };
+        check_old("right after the failing rotate_output");
+        // ---- the application carries on for a moment -----------------------------------------------------------------------------
+        Rng r(mix64(cx.seed, 4242));
+        unsigned between = (unsigned)r.below(3);
+        bool lost_unreported = false;
+        for (unsigned b = 0; b < between; b++) {
+            gen::RecGen g(p.plan.sw, r.next());
+            CDNS::GenericQueryResponse rec = g.qr(p.cur_tps());
+            if (!rec.asn) rec.asn = std::string("between");
+            p.M.add_qr(rec, nullptr);
+            try {
+                size_t ret = p.ex->buffer_qr(rec);
+                bool wrote = p.M.maybe_flush();
+                if (wrote) { lost_unreported = true; p.M.out.blocks.pop_back(); }   // went to the output that does not exist
+                (void)ret;
+            } catch (std::exception& e) { cx.log.ev(std::string("BETWEEN-THREW ") + e.what()); }
+        }
+        // ---- recovery ---------------------------------------------------------------------------------------------------------------
+        bool rotated = false, reported = false;
+        std::string rec_name, last_err;
+        int attempts = 0;
+        for (; attempts < 2 && !rotated; attempts++) {
+            try {
+                if (fd) { int d = F.make_fd("rec" + std::to_string(attempts)); rec_name = "fd:rec" + std::to_string(attempts); p.ex->rotate_output(d, false); }
+                else { rec_name = "/sim/rec" + std::to_string(attempts) + p.ext; p.ex->rotate_output("/sim/rec" + std::to_string(attempts), false); }
+                rotated = true;
+            } catch (std::exception& e) { reported = true; last_err = e.what(); cx.log.ev(std::string("RECOVERY-ROTATE-THREW ") + e.what()); }
+        }
+        if (!rotated) V("C16", "I16/rotation-does-not-recover", "two consecutive rotate_output calls to usable destinations threw ('" + last_err + "')");
+        else {
+            if (lost_unreported && !reported) V("C16", "I15/unreported-loss", "a block was accepted while no output was open and no later call reported its loss");
+            size_t q = p.ex->get_block_qr_count();
+            if (q != p.M.cur.qr.size()) V("C16", "I16/pending-not-buffered", "exporter holds " + std::to_string(q) + " query/responses, the model's pending block " + std::to_string(p.M.cur.qr.size()));
+            model::MBlock pending = p.M.cur;
+            try {
+                size_t w = p.ex->write_block();
+                if (pending.items() && !w) V("C16", "I16/recovered-block-not-written", "write_block() after recovery returned 0");
+                if (fd) { int d = F.make_fd("recend"); p.ex->rotate_output(d, false); } else p.ex->rotate_output(std::string("/sim/recend"), false);
+                std::string raw;
+                if (fd) { auto ino = F.fd_inode(rec_name.substr(3)); raw = ino ? ino->data : ""; } else raw = F.exists(rec_name) ? F.get(rec_name) : "";
+                std::string plain, err;
+                bool dec = true;
+                if (p.plan.sw.compression == 1) dec = model::gunzip_exact(raw, plain, err); else if (p.plan.sw.compression == 2) dec = model::unxz_exact(raw, plain, err); else plain = raw;
+                if (!dec) { V("C16", "I16/recovered-file-invalid", rec_name + ": " + err); V("C13", "I12/output-after-open-failure-not-self-contained", rec_name + ": " + err); }
+                else if (pending.items() == 0) { if (!plain.empty()) V("C13", "I12/output-after-open-failure-not-self-contained", rec_name + " holds data although nothing was pending"); }
+                else {
+                    ref::RFile rf = ref::Interp::file(plain);
+                    size_t before = cx.viol.size();
+                    model::MOutput mo; mo.name = rec_name; mo.blocks.push_back(pending);
+                    p.checks_off = false; p.compare_blocks(mo, rf); p.checks_off = true;
+                    // (records handed over while no output could take them stay buffered: that block may exceed max_block_items)
+                    std::string d;
+                    for (size_t z = before; z < cx.viol.size() && d.empty(); z++) if (cx.viol[z].sig.find("array-above-max") == std::string::npos) d = cx.viol[z].sig + ": " + cx.viol[z].detail;
+                    bool any = cx.viol.size() > before;
+                    cx.viol.resize(before);
+                    if (!d.empty()) V("C16", "I16/recovered-file-content", d);
+                    else if (any) cx.ctr->add("probe.recovered_block_above_max_items");
+                    else cx.ctr->add("probe.recovery_after_open_failure_completed");
+                }
+            } catch (std::exception& e) { V("C16", "I16/recovered-file-invalid", std::string("after recovery: ") + e.what()); V("C13", "I12/output-after-open-failure-not-self-contained", e.what()); }
+        }
+        check_old("after the application carried on and recovered");
+        cx.nontrivial = true;
+        break;
+    }
+    cx.log.ev("DESTROY");
+    try { p.ex.reset(); } catch (...) {}
+    F.close_all_leaked();
+    F.watcher = nullptr; F.log = nullptr;
+    cx.state_key = std::string("openfail") + (fd ? "d" : "n") + std::to_string(p.plan.sw.compression) + ",";
+}
+}  // namespace
 
 void sim::engine_fault(RunCtx& cx) {
     // Whatever property the check is run for (C16, or C02/C10/C13/C15 which add a fault stage), the scenarios come from the
@@ -99,6 +223,13 @@ static void engine_fault_impl(RunCtx& cx) {
                     f.op = i; f.j = j; f.kind = (simfs::WFault::Kind)k; f.persist = per;
                     space.push_back(f);
                 }
+    // one more fault kind per rotation: the destination of that rotate_output cannot be opened (unopenable name / invalid descriptor)
+    {
+        Pipeline probe(cx);   // only to look at the plan
+        ppl::Plan pl = ppl::make_plan(cx.seed, cx.prop);
+        for (unsigned i = 0; i < pl.ops.size(); i++)
+            if (cx.kept(i) && pl.ops[i].kind == ppl::O_ROTATE) { FaultSpec f; f.op = i; f.j = 0; f.open_fail = true; space.push_back(f); }
+    }
     cx.ctr->add("fault_space_total", cx.slot == 0 ? space.size() : 0);
     if (space.empty()) { cx.ctr->add("scenarios_without_write_calls", cx.slot == 0 ? 1 : 0); return; }
     size_t pick;
@@ -111,6 +242,7 @@ static void engine_fault_impl(RunCtx& cx) {
         if (cx.slot == 0) cx.ctr->add("scenarios_sampled");
     }
     FaultSpec fs = space[pick];
+    if (fs.open_fail) { run_open_fail(cx, p1, fs.op); return; }
 
     // ---- pass 2: the faulted run -------------------------------------------------------------------
     Pipeline p(cx);
